@@ -136,7 +136,7 @@ def apply_declaration(model, cfg, d):
                            plus_hc=d['hc'])
     elif kind == 'multi':
         ops = [(op, _dx(cfg, dx), u) for op, dx, u in d['ops']]
-        model.add_multi_coupling(strength_value(d['s'], dim), ops, plus_hc=d['hc'])
+        model.add_multi_coupling(strength_value(d['s'], dim), ops, plus_hc=d['hc'], switchLR=str(d.get('sw', 'middle_i')))
     elif kind == 'expdecay':
         strength = gnum(d['s0']) * float(d['lamInv'] ** d['dmax'])
         subs = list(d['subs']) if d['subs'] else None
